@@ -8,5 +8,6 @@ Init == \E k \in Kinds : \E f \in 0..MaxFlags(k), hs \in BOOLEAN, d \in DefaultK
           /\ Start(k, f, hs, d)
 Spec == Init /\ [][Step]_vars
 Emit == Done => PrintT(ToJson([kind |-> kind, flags |-> flags, hasShort |-> hasShort, dflt |-> dflt,
-                               accepted |-> (pc = "accepted"), nflags |-> nflags, dkind |-> dkind]))
+                               accepted |-> (pc = "accepted"), nflags |-> nflags, dkind |-> dkind,
+                               preds |-> IF pc = "accepted" THEN Preds(kind, nflags) ELSE NoPreds]))
 =============================================================================
